@@ -18,8 +18,12 @@ VARIABLES map,           \* map[r] : function from names (Seq of segments) to ta
 vars == <<map, prov, hist>>
 
 Funcs == [f |-> <<"f">>, g |-> <<"g">>]                         \* plain functions and their __name__
-ViewPublic == [V_get |-> <<"get">>, V_put |-> <<"put">>]        \* public callables of view class V
-\* V also has: _hid (private callable), __magic__ (dunder callable), const (public, not callable): never exposed
+\* public callables of the view classes, in the order a view exposes them (alphabetical):
+\*   V; W(V) - a view derived from a view, adding `extra`; M(ViewMixin, Health) - handlers inherited from a plain base class
+ViewMembers == [V |-> <<"V_get", "V_put">>, W |-> <<"W_extra", "W_get", "W_put">>, M |-> <<"M_own", "M_ping">>]
+ViewPublic == [V_get |-> <<"get">>, V_put |-> <<"put">>, W_extra |-> <<"extra">>, W_get |-> <<"get">>, W_put |-> <<"put">>,
+               M_own |-> <<"own">>, M_ping |-> <<"ping">>]
+\* every class also has: _hid (private callable), __magic__ (dunder callable), const (public, not callable): never exposed
 
 Empty == [x \in {} |-> "none"]
 Put(m, n, t) == [x \in (DOMAIN m) \cup {n} |-> IF x = n THEN t ELSE m[x]]
@@ -36,8 +40,8 @@ PutAll(m, recs) == IF recs = <<>> THEN m ELSE PutAll(Put(m, Head(recs).name, Hea
 Add(r, fn) == Reg(r, fn, Funcs[fn])
 AddNamed(r, fn, n) == Reg(r, fn, n)
 \* view(V, prefix=vp): every public callable of V under prefix . view prefix . member name
-View(r, vp) ==
-    LET ms == <<"V_get", "V_put">> IN
+View(r, vp, c) ==
+    LET ms == ViewMembers[c] IN
     /\ map' = [map EXCEPT ![r] = PutAll(@, [j \in DOMAIN ms |-> [name |-> PrefixOf[r] \o vp \o ViewPublic[ms[j]], target |-> ms[j]]])]
     /\ prov' = [prov EXCEPT ![r] = @ \o [j \in DOMAIN ms |-> [target |-> ms[j], own |-> ViewPublic[ms[j]], through |-> PrefixOf[r] \o vp]]]
 \* merge(r, o) / dispatcher.add_methods(o): everything o holds, re-prefixed with r's prefix, in o's insertion order
@@ -56,7 +60,7 @@ Merge(r, o) ==
 Do(op) == /\ hist' = Append(hist, op)
           /\ CASE op.op = "add"      -> Add(op.r, op.fn)
                [] op.op = "addnamed" -> AddNamed(op.r, op.fn, op.name)
-               [] op.op = "view"     -> View(op.r, op.vp)
+               [] op.op = "view"     -> View(op.r, op.vp, op.cls)
                [] op.op = "merge"    -> Merge(op.r, op.o)
 Next == \E op \in Ops : Do(op)
 Spec == InitState /\ [][Next]_vars
